@@ -205,6 +205,8 @@ Ltac shape H :=
   repeat match type of H with
          | context [match ?v with _ => _ end] =>
              is_var v; destruct v; try discriminate H; vm_compute in H
+         | (if ?c then false else false) = true => exfalso; destruct c; discriminate H
+         | context [?f ?v 0%nat] => is_var v; destruct v; try discriminate H; vm_compute in H
          end.
 
 (* ================================================================ 2. refinement *)
@@ -250,23 +252,278 @@ Proof. destruct k; try congruence; intros _; reflexivity. Qed.
 Lemma mal_cases k : k <> KMint -> (malleable k = mal1 \/ malleable k = mal2) /\ removed k = rem1.
 Proof. destruct k; try congruence; intros _; split; auto. Qed.
 
+Lemma kind_eq_dec (a b : kind) : {a = b} + {a <> b}.
+Proof. decide equality. Defined.
+
+Lemma shaped_fields_len fs : forall vs, shaped_fields fs vs = true -> length vs = fields_len fs.
+Proof.
+  induction fs as [|n sk t r IH]; intros [|v vs] H; try discriminate H; [reflexivity|].
+  cbn [shaped_fields] in H. apply andb_true_iff in H as [_ H]. cbn [length fields_len]. f_equal. apply IH, H.
+Qed.
+
+Lemma shaped_chargeable k v : k <> KMint -> shaped (kind_ty k) v = true ->
+  exists body pol ins outs wits meta, v = VS [body; pol; VL ins; VL outs; VL wits; meta] /\
+    shaped (body_ty k) body = true /\ forallb (shaped S_Input) ins = true /\
+    forallb (shaped S_Output) outs = true.
+Proof.
+  intros Hk H.
+  destruct v as [| | | |vs| |]; try (destruct k; discriminate H).
+  assert (Hl : length vs = 6%nat).
+  { destruct k; try congruence;
+      (match type of H with shaped (TStruct _ ?fs) _ = true => apply (shaped_fields_len fs) in H end
+       || (unfold kind_ty in H; match type of H with shaped ?S _ = true => unfold S, struct_ in H end;
+           apply shaped_fields_len in H)); exact H. }
+  destruct vs as [|body [|pol [|ins [|outs [|wits [|meta [|]]]]]]]; try discriminate Hl. clear Hl.
+  destruct k; try congruence;
+    (match type of H with shaped (kind_ty ?K) _ = true =>
+       change (shaped (body_ty K) body && (true && (shaped (TVec S_Input) ins && (shaped (TVec S_Output) outs &&
+               (shaped (TVec S_Witness) wits && true)))) = true) in H end;
+     apply andb_true_iff in H as [Hb H]; apply andb_true_iff in H as [_ H];
+     apply andb_true_iff in H as [Hi H]; apply andb_true_iff in H as [Ho H];
+     apply andb_true_iff in H as [Hw _];
+     destruct ins as [| | |ins| | |]; try discriminate Hi;
+     destruct outs as [| | |outs| | |]; try discriminate Ho;
+     destruct wits as [| | |wits| | |]; try discriminate Hw;
+     change (forallb (shaped S_Input) ins = true) in Hi;
+     change (forallb (shaped S_Output) outs = true) in Ho;
+     eauto 12).
+Qed.
+
 Lemma strip_model_shaped k v : shaped (kind_ty k) v = true -> strip_model k v = strip k v.
 Proof.
   intros H. destruct (kind_eq_dec k KMint) as [-> | Hk].
   - shape H. vm_compute. reflexivity.
-  - assert (Hs : exists body pol ins outs wits meta, v = VS [body; pol; VL ins; VL outs; VL wits; meta] /\
-                 shaped (body_ty k) body = true /\ forallb (shaped S_Input) ins = true /\
-                 forallb (shaped S_Output) outs = true).
-    { destruct k; try congruence;
-        (destruct v as [| | | |vs| |]; try discriminate H;
-         destruct vs as [|body [|pol [|ins [|outs [|wits [|meta [|]]]]]]]; try discriminate H;
-         destruct ins as [| | |ins| | |]; try (cbn in H; rewrite ?andb_false_r in H; discriminate H);
-         destruct outs as [| | |outs| | |]; try (cbn in H; rewrite ?andb_false_r in H; discriminate H);
-         destruct wits as [| | |wits| | |]; try (cbn in H; rewrite ?andb_false_r in H; discriminate H);
-         exists body, pol, ins, outs, wits, meta; split; [reflexivity|];
-         change (shaped_fields _ _) with
-           (shaped (body_ty _) body && (shaped S_Policies pol && (forallb (shaped S_Input) ins &&
-            (forallb (shaped S_Output) outs && (forallb (shaped S_Witness) wits && true))))) in H
-         || idtac). all: admit_placeholder. }
-    admit_placeholder.
+  - destruct (shaped_chargeable k v Hk H) as (body & pol & ins & outs & wits & meta & -> & Hb & Hi & Ho).
+    rewrite strip_model_unfold, strip_unfold by exact Hk.
+    destruct (mal_cases k Hk) as [Hm Hr]. rewrite Hr.
+    assert (E1 : ps pst (body_of k) 3 "<Body>" (body_ty k) body =
+                 (if match k with KScript => true | _ => false end
+                  then strip_by (malleable k) rem1 (body_ty k) ["body"] body else body)).
+    { clear Hm Hr Hi Ho H. destruct k; try congruence; shape Hb; vm_compute; reflexivity. }
+    assert (E2 : map (ps pst (body_of k) 3 "Input" S_Input) ins =
+                 map (strip_by (malleable k) rem1 S_Input ["inputs"]) ins).
+    { apply map_ext_in. intros x Hx. apply ps_input_spec; [exact Hm|].
+      rewrite forallb_forall in Hi. apply Hi, Hx. }
+    assert (E3 : map (ps pst (body_of k) 3 "Output" S_Output) outs =
+                 map (strip_by (malleable k) rem1 S_Output ["outputs"]) outs).
+    { apply map_ext_in. intros x Hx. apply ps_output_spec; [exact Hm|].
+      rewrite forallb_forall in Ho. apply Ho, Hx. }
+    rewrite E1, E2, E3. reflexivity.
+Qed.
+
+(* the interpreter of the generated prepare_sign table computes the specification's strip *)
+Theorem strip_model_spec k v : typed (kind_ty k) v = true -> strip_model k v = strip k v.
+Proof. intros H. apply strip_model_shaped, typed_shaped, H. Qed.
+
+(* the model's hasher inputs are the specification's preimage *)
+Lemma preimage_model_spec c k v : typed (kind_ty k) v = true -> preimage_model c k v = id_preimage c k v.
+Proof.
+  intros H. unfold preimage_model, id_preimage, hash_inputs. rewrite (strip_model_spec k v H).
+  change (flat_map (hash_input c (kind_ty k) (strip k v)) compute_transaction_id_inputs)
+    with (be8 c ++ (enc (kind_ty k) (strip k v) ++ [])).
+  rewrite app_nil_r. reflexivity.
+Qed.
+
+Theorem id_model_formula {D} (h : bytes -> D) c k v : typed (kind_ty k) v = true ->
+  id_model h c {| m_kind := k; m_val := v; m_cache := None |} = id_spec h c k v.
+Proof. intros H. unfold id_model, fresh_id, id_spec. cbn [m_cache m_kind m_val]. rewrite (preimage_model_spec c k v H). reflexivity. Qed.
+
+(* ================================================================ 3. malleable fields *)
+Lemma path_eqb_eq a : forall b, path_eqb a b = true -> a = b.
+Proof.
+  induction a as [|x a IH]; intros [|y b] H; try discriminate H; [reflexivity|].
+  cbn [path_eqb] in H. apply andb_true_iff in H as [H1 H2]. apply String.eqb_eq in H1. f_equal; auto.
+Qed.
+Lemma proper_prefix_app p : forall q, q <> [] -> proper_prefix p (p ++ q) = true.
+Proof.
+  induction p as [|x p IH]; intros q Hq; cbn [app proper_prefix].
+  - destruct q; [congruence | reflexivity].
+  - rewrite String.eqb_refl. apply IH, Hq.
+Qed.
+Lemma map_set_nth {A B} (f : A -> B) (g : A -> A) : (forall a, f (g a) = f a) ->
+  forall i l, map f (set_nth i g l) = map f l.
+Proof.
+  intros Hfg i l. revert i. induction l as [|a l IH]; intros [|i]; cbn [set_nth map]; try reflexivity.
+  - rewrite Hfg. reflexivity.
+  - rewrite IH. reflexivity.
+Qed.
+
+Section Poke.
+Variable mal rem : list path.
+Definition in_mr (p : path) : bool := pmem p mal || pmem p rem.
+
+Lemma below_prefix p q : q <> [] -> in_mr (p ++ q) = true -> below mal rem p = true.
+Proof.
+  intros Hq H. unfold below. apply existsb_exists. exists (p ++ q). split; [|apply proper_prefix_app, Hq].
+  unfold in_mr, pmem in H. apply orb_true_iff in H. apply in_or_app.
+  destruct H as [H | H]; apply existsb_exists in H as (r & Hr & E); apply path_eqb_eq in E; subst r; auto.
+Qed.
+
+Lemma strip_poke_all :
+  (forall t pre q sel x v, in_mr (pre ++ q) = true ->
+     strip_by mal rem t pre (poke t q sel x v) = strip_by mal rem t pre v) /\
+  (forall fs pre n q' sel x vs, in_mr (pre ++ n :: q') = true ->
+     strip_fields mal rem fs pre (poke_fields fs n q' sel x vs) = strip_fields mal rem fs pre vs) /\
+  (forall vars pre i n q' sel x vs, in_mr (pre ++ n :: q') = true ->
+     strip_variants mal rem vars pre i (poke_variants vars i n q' sel x vs) = strip_variants mal rem vars pre i vs) /\
+  (forall al pre i n q' sel x y, in_mr (pre ++ n :: q') = true ->
+     strip_alts mal rem al pre i (poke_alts al i n q' sel x y) = strip_alts mal rem al pre i y).
+Proof.
+  apply schema_mutind.
+  - intros w pre q sel x v H. destruct v; reflexivity.
+  - intros n pre q sel x v H. destruct v; reflexivity.
+  - intros pre q sel x v H. destruct v; reflexivity.
+  - intros t IH pre q sel x v H. destruct v; try reflexivity. destruct sel as [|i sel']; [reflexivity|].
+    cbn [poke strip_by]. f_equal. apply map_set_nth. intros a. apply IH, H.
+  - intros p fs IH pre q sel x v H. destruct v; try reflexivity. destruct q as [|n q']; [reflexivity|].
+    cbn [poke strip_by]. f_equal. apply IH, H.
+  - intros vars IH pre q sel x v H. destruct v; try reflexivity. destruct q as [|n q']; [reflexivity|].
+    cbn [poke strip_by]. f_equal. apply IH, H.
+  - intros t IH pre q sel x v H. destruct v; reflexivity.
+  - intros s pre q sel x v H. destruct v; reflexivity.
+  - intros pre q sel x v H. destruct v; reflexivity.
+  - intros cf Hcf cs Hcs cp Hcp ct Hct mf Hmf mcs Hmcs mcp Hmcp mds Hmds mdp Hmdp pre q sel x v H.
+    destruct v as [| | | | |i l|]; try reflexivity. destruct l as [|y [|]]; try reflexivity.
+    destruct q as [|n q']; [reflexivity|]. cbn [poke].
+    destruct (String.eqb (nth i input_names "") n) eqn:E; [|reflexivity].
+    apply String.eqb_eq in E. cbn [strip_by]. f_equal. f_equal. rewrite E.
+    assert (H' : in_mr ((pre ++ [n]) ++ q') = true) by (rewrite <- app_assoc; exact H).
+    revert H'. generalize (pre ++ [n]). intros pre' H'.
+    apply (input_sel_cases (fun t => strip_by mal rem t pre' (poke t q' sel x y) = strip_by mal rem t pre' y));
+      auto.
+  - intros al IH pre q sel x v H. destruct v as [| | | | |i l|]; try reflexivity.
+    destruct l as [|y [|]]; try reflexivity. destruct q as [|n q']; [reflexivity|].
+    cbn [poke strip_by]. f_equal. f_equal. apply IH, H.
+  - intros pre n q' sel x vs H. reflexivity.
+  - intros n' sk t It r Ir pre n q' sel x vs H. destruct vs as [|v vs']; [reflexivity|].
+    cbn [poke_fields]. destruct (String.eqb n' n) eqn:E.
+    + apply String.eqb_eq in E. subst n'. cbn [strip_fields]. f_equal.
+      destruct q' as [|m q''].
+      * unfold in_mr in H. destruct (pmem (pre ++ [n]) rem); [reflexivity|].
+        rewrite orb_false_r in H. rewrite H. reflexivity.
+      * destruct (pmem (pre ++ [n]) rem); [reflexivity|].
+        destruct (pmem (pre ++ [n]) mal); [reflexivity|].
+        assert (H' : in_mr ((pre ++ [n]) ++ m :: q'') = true) by (rewrite <- app_assoc; exact H).
+        rewrite (below_prefix (pre ++ [n]) (m :: q'')) by (congruence || exact H').
+        apply It, H'.
+    + cbn [strip_fields]. f_equal. apply Ir, H.
+  - intros pre i n q' sel x vs H. reflexivity.
+  - intros n' d fs If r Ir pre i n q' sel x vs H. cbn [poke_variants strip_variants]. destruct i as [|j].
+    + destruct (String.eqb n' n) eqn:E; [|reflexivity]. apply String.eqb_eq in E. subst n'.
+      destruct q' as [|m q'']; [reflexivity|]. apply If. rewrite <- app_assoc. exact H.
+    + apply Ir, H.
+  - intros pre i n q' sel x y H. reflexivity.
+  - intros n' d t It r Ir pre i n q' sel x y H. cbn [poke_alts strip_alts]. destruct i as [|j].
+    + destruct (String.eqb n' n) eqn:E; [|reflexivity]. apply String.eqb_eq in E. subst n'.
+      apply It. rewrite <- app_assoc. exact H.
+    + apply Ir, H.
+Qed.
+End Poke.
+
+(* changing the value at a malleable (or removed) path — in whichever input / output / element —
+   to anything whatsoever does not change strip; no typing hypothesis is needed *)
+Theorem strip_poke k p sel x v :
+  In p (malleable k ++ removed k) -> strip k (poke (kind_ty k) p sel x v) = strip k v.
+Proof.
+  intros Hin. unfold strip. apply (proj1 (strip_poke_all (malleable k) (removed k))).
+  cbn [app]. unfold in_mr, pmem. apply orb_true_iff. apply in_app_or in Hin.
+  assert (R : forall q, path_eqb q q = true).
+  { induction q as [|a q IH]; [reflexivity|]. cbn [path_eqb]. rewrite String.eqb_refl. exact IH. }
+  destruct Hin as [Hin | Hin]; [left | right]; apply existsb_exists; exists p; auto.
+Qed.
+
+Theorem id_spec_malleable {D} (h : bytes -> D) c k v v' : strip k v = strip k v' -> id_spec h c k v = id_spec h c k v'.
+Proof. intros E. unfold id_spec, id_preimage. rewrite E. reflexivity. Qed.
+
+(* ================================================================ 4. binding *)
+Lemma be8_inj a b : a < U64 -> b < U64 -> be8 a = be8 b -> a = b.
+Proof.
+  intros Ha Hb E. pose proof (read_word_be8 a [] Ha) as R1. pose proof (read_word_be8 b [] Hb) as R2.
+  rewrite E in R1. rewrite R1 in R2. congruence.
+Qed.
+Lemma app_eq_len {A} (a a' b b' : list A) : length a = length a' -> a ++ b = a' ++ b' -> a = a' /\ b = b'.
+Proof.
+  revert a'. induction a as [|x a IH]; intros [|y a'] Hl E; try discriminate Hl; cbn [app] in *; [auto|].
+  injection E as -> E. injection Hl as Hl. destruct (IH _ Hl E) as [-> ->]. auto.
+Qed.
+Lemma kind_is_codec k : is_codec_type (kind_ty k).
+Proof. destruct k; unfold is_codec_type, codec_types; cbn [map snd In kind_ty]; tauto. Qed.
+
+(* well-formed = typed and wf (the hypothesis of the round-trip theorem of the codec family) *)
+Definition wfv (k : kind) (v : val) : bool := typed (kind_ty k) v && wf L (kind_ty k) v.
+
+Lemma enc_inj k s s' : wfv k s = true -> wfv k s' = true ->
+  enc (kind_ty k) s = enc (kind_ty k) s' -> erase (kind_ty k) s = erase (kind_ty k) s'.
+Proof.
+  intros H H' E. apply andb_true_iff in H as [Ht Hw]. apply andb_true_iff in H' as [Ht' Hw'].
+  pose proof (proj2 (inst_roundtrip _ s [] (kind_is_codec k) Ht Hw)) as R.
+  pose proof (proj2 (inst_roundtrip _ s' [] (kind_is_codec k) Ht' Hw')) as R'.
+  rewrite E in R. rewrite R in R'. congruence.
+Qed.
+
+Theorem preimage_binding c c' k v v' :
+  c < U64 -> c' < U64 -> wfv k (strip k v) = true -> wfv k (strip k v') = true ->
+  c <> c' \/ content k v <> content k v' ->
+  id_preimage c k v <> id_preimage c' k v'.
+Proof.
+  intros Hc Hc' Hv Hv' Hne E. unfold id_preimage in E.
+  apply app_eq_len in E as [E1 E2]; [|rewrite !be8_length; reflexivity].
+  apply (be8_inj _ _ Hc Hc') in E1. apply (enc_inj k _ _ Hv Hv') in E2.
+  destruct Hne as [Hne | Hne]; [exact (Hne E1) | exact (Hne E2)].
+Qed.
+
+Theorem id_binding {D} (h : bytes -> D) c c' k v v' :
+  c < U64 -> c' < U64 -> wfv k (strip k v) = true -> wfv k (strip k v') = true ->
+  c <> c' \/ content k v <> content k v' ->
+  (h (id_preimage c k v) = h (id_preimage c' k v') -> id_preimage c k v = id_preimage c' k v') ->
+  id_spec h c k v <> id_spec h c' k v'.
+Proof.
+  intros Hc Hc' Hv Hv' Hne Hcf E. exact (preimage_binding c c' k v v' Hc Hc' Hv Hv' Hne (Hcf E)).
+Qed.
+
+(* ================================================================ 5. cache *)
+Theorem cache_correct {D} (h : bytes -> D) c (m : mtx) :
+  cached_id (precompute h c true m) = Some (fresh_id h c (m_kind m) (m_val m)) /\
+  id_model h c (precompute h c true m) = fresh_id h c (m_kind m) (m_val m) /\
+  cached_id (precompute h c false m) = None /\
+  id_model h c (precompute h c false m) = fresh_id h c (m_kind m) (m_val m) /\
+  precompute h c true (precompute h c true m) = precompute h c true m.
+Proof. repeat split. Qed.
+
+(* ================================================================ non-vacuity *)
+Definition ex_tx_of (inputs : list val) : val :=
+  match ex_script_tx inputs (ex_policies 21 [3; 0; 9; 0; 11; 0]) with VE _ [x] => x | _ => VUnit end.
+Definition ex_contract_input : val :=
+  VE 2 [VS [VS [VB (map (fun _ => 1) (zeros 32)); VN 3]; VB (map (fun _ => 7) (zeros 32));
+            VB (map (fun _ => 8) (zeros 32)); VS [VN 5; VN 6]; VB zero32]].
+Definition ex_tx1 : val := ex_tx_of [ex_coin_predicate [1; 2; 3] [9]; ex_message_data_signed [5]; ex_contract_input].
+(* same transaction, other owner of the first input *)
+Definition ex_tx2 : val :=
+  poke S_Script ["inputs"; "CoinPredicate"; "owner"] [0%nat] (VB (map (fun _ => 9) (zeros 32))) ex_tx1.
+
+Example ex_wf : wfv KScript ex_tx1 = true /\ wfv KScript (strip KScript ex_tx1) = true /\
+                wfv KScript (strip KScript ex_tx2) = true /\ strip KScript ex_tx1 <> ex_tx1.
+Proof. vm_compute. repeat split; discriminate. Qed.
+Example ex_content_differs : content KScript ex_tx1 <> content KScript ex_tx2.
+Proof. vm_compute. discriminate. Qed.
+(* a malleable change: the contract input's balance root *)
+Example ex_malleable_change :
+  let v' := poke S_Script ["inputs"; "Contract"; "balance_root"] [2%nat] (VB (map (fun _ => 99) (zeros 32))) ex_tx1 in
+  v' <> ex_tx1 /\ strip KScript v' = strip KScript ex_tx1.
+Proof. vm_compute. split; [discriminate | reflexivity]. Qed.
+(* the collision-freeness premise is satisfiable: the identity is an injective "hash" *)
+Example ex_collision_free :
+  id_spec (fun b : bytes => b) 0 KScript ex_tx1 <> id_spec (fun b : bytes => b) 0 KScript ex_tx2.
+Proof.
+  apply id_binding; try (vm_compute; reflexivity); try apply ex_wf; [right; apply ex_content_differs | auto].
+Qed.
+
+(* the model's id is insensitive to malleable fields as well (both values typed) *)
+Theorem id_model_malleable_field {D} (h : bytes -> D) c k p sel x v :
+  In p (malleable k ++ removed k) ->
+  typed (kind_ty k) v = true -> typed (kind_ty k) (poke (kind_ty k) p sel x v) = true ->
+  id_model h c {| m_kind := k; m_val := poke (kind_ty k) p sel x v; m_cache := None |} =
+  id_model h c {| m_kind := k; m_val := v; m_cache := None |}.
+Proof.
+  intros Hin Hv Hv'. rewrite !id_model_formula by assumption. apply id_spec_malleable, strip_poke, Hin.
 Qed.
